@@ -46,6 +46,12 @@ def run(tier):
         for lg in ('nor', 'eng'):
             extra.append([O('setlock', t=t, b=False), O('setprefix', t=t), O('put', k='k1', v='d%d' % t), O('setlang', s=lg), O('put', k='k1', v='t%d%s' % (t, lg)),
                           O('dump'), O('get', k='k1'), O('put', k='k2', v='u%d%s' % (t, lg)), O('dump', k='k'), O('get', k='k2'), O('setlang', s=''), O('get', k='k2'), O('get', k='k1')])
+    # the lock argument is a bit mask: combined masks before and after sealing, then a write to every read-only type
+    for mask in (3, 9, 10, 15, 17, 18, 24, 40, 63):
+        for t in (1, 2, 4, 8, 16):
+            extra.append([O('setlock', t=mask, b=False), O('setprefix', t=t), O('put', k='m1', v='a%d_%d' % (mask, t)), O('get', k='m1'),
+                          O('setlock', t=mask, b=True), O('put', k='m1', v='b%d_%d' % (mask, t)), O('get', k='m1'),
+                          O('setlock', t=0, b=True), O('setlock', t=mask, b=False), O('put', k='m1', v='c%d_%d' % (mask, t)), O('get', k='m1')])
     extra += [q for q in kv.session_switch_sequences() if '' not in (q[1]['s'], q[3]['s'])]
     with open(sp, 'a') as f:
         for e in extra:
